@@ -173,8 +173,8 @@ PROPS = {
     ),
     "C12": dict(
         level="proof",
-        modules=["Exmex.Props.C12", "Exmex.Props.C12Lex", "Exmex.Props.C13Lex", "Exmex.Props.C02"],
-        theorems=["Exmex.C12.flat_parse_text", "Exmex.C12.unparse_eq_render", "Exmex.C12.topChain_denote", "Exmex.C12.unparse_parse_sound",
+        modules=["Exmex.Props.Reach", "Exmex.Props.C12", "Exmex.Props.C12Lex", "Exmex.Props.C13Lex", "Exmex.Props.C02"],
+        theorems=["Exmex.Reach.reach_inv", "Exmex.C12.flat_parse_text", "Exmex.C12.unparse_eq_render", "Exmex.C12.topChain_denote", "Exmex.C12.unparse_parse_sound",
                   "Exmex.C12.tokenize_unparse", "Exmex.C12.unparse_parse_sound'",
                   "Exmex.C12.shape_of_named", "Exmex.C13.tokenize_render_spaced"],
         level_text=("kernel-checked: flat_parse_text (a parsed flat expression keeps exactly its source text); unparse_eq_render (the text printed by a deep expression is the "
@@ -220,8 +220,8 @@ PROPS = {
     ),
     "C10": dict(
         level="proof",
-        modules=["Exmex.Props.C10", "Exmex.Props.C10Shortcuts", "Exmex.Proofs.WrapOK", "Exmex.Props.C02Deep", "Exmex.Props.C03"],
-        theorems=["Exmex.C10.resetVars_sound", "Exmex.C10.operateBin_sound", "Exmex.C10.operateUnary_sound", "Exmex.C10.operateBin_unknown",
+        modules=["Exmex.Props.Reach", "Exmex.Props.C10", "Exmex.Props.C10Shortcuts", "Exmex.Proofs.WrapOK", "Exmex.Props.C02Deep", "Exmex.Props.C03"],
+        theorems=["Exmex.Reach.reach_inv", "Exmex.C10.resetVars_sound", "Exmex.C10.operateBin_sound", "Exmex.C10.operateUnary_sound", "Exmex.C10.operateBin_unknown",
                   "Exmex.C10.add_sound", "Exmex.C10.mul_sound", "Exmex.C10.div_sound", "Exmex.C10.pow_sound", "Exmex.C10.sub_sound", "Exmex.C10.neg_sound",
                   "Exmex.C10.operateUnary_yields", "Exmex.Shortcut.compile_folded", "Exmex.Shortcut.operateBin_folded", "Exmex.Shortcut.wrapOK_of_folded",
                   "Exmex.C02.deep_new_sound", "Exmex.C02.deep_compile_sound", "Exmex.C03.fromDeep_sound"],
@@ -240,8 +240,8 @@ PROPS = {
     ),
     "C11": dict(
         level="proof",
-        modules=["Exmex.Props.C11", "Exmex.Props.C02Deep", "Exmex.Props.C03"],
-        theorems=["Exmex.C11.subs_sound", "Exmex.C11.subs_none", "Exmex.C11.subs_sound_gen", "Exmex.C11.subs_listed", "Exmex.C02.deep_compile_sound", "Exmex.C03.fromDeep_sound"],
+        modules=["Exmex.Props.Reach", "Exmex.Props.C11", "Exmex.Props.C02Deep", "Exmex.Props.C03"],
+        theorems=["Exmex.Reach.reach_inv", "Exmex.C11.subs_sound", "Exmex.C11.subs_none", "Exmex.C11.subs_sound_gen", "Exmex.C11.subs_listed", "Exmex.C02.deep_compile_sound", "Exmex.C03.fromDeep_sound"],
         level_text=("kernel-checked for the deep form: subs_sound (the result lists exactly the sorted, duplicate-free union of the untouched variables and the replacements' variables, "
                     "and its value under every environment is the value of the original with each replaced variable bound to the value of its replacement - simultaneous, "
                     "replacements not re-substituted, self-referential replacements included), subs_none (nothing replaced: same variables, same function), subs_listed (the "
@@ -251,12 +251,15 @@ PROPS = {
                     "implementation is judged against an independent f64 reference (substitution by environment) at random points"),
         rule="histories dominated by substitution steps (partial maps incl. self-referential, constant, renaming, swapping replacements; repeated substitution), flat and deep; symbolic: exact comparison with the Lean model; f64: values at tame points and variable lists against the reference; non-trivial = at least 2 steps; distinct by request hash",
         kinds=[dict(kind="hist", quick=8000, thorough=250000, args=["subs"], corr=["pool", "steps"], oracle=[], nontrivial=lambda req, A, B: req.split("\t")[5].count("|") >= 1),
-               dict(kind="histf", quick=8000, thorough=250000, args=["subs"], no_model=True, corr=[], oracle_const=[("r", "ok")], nontrivial=lambda req, A, B: req.split("\t")[3].count("|") >= 1)],
+               dict(kind="histf", quick=8000, thorough=250000, args=["subs"], no_model=True, corr=[], oracle_const=[("r", "ok")], nontrivial=lambda req, A, B: req.split("\t")[3].count("|") >= 1),
+               # substitution into derivatives (expressions that list variables which no longer occur)
+               dict(kind="hist", quick=5000, thorough=150000, args=["diff"], corr=["pool", "steps"], oracle=[], nontrivial=lambda req, A, B: "s:" in req.split("\t")[5]),
+               dict(kind="histf", quick=5000, thorough=150000, args=["diff"], no_model=True, corr=[], oracle_const=[("r", "ok")], nontrivial=lambda req, A, B: "s:" in req.split("\t")[3])],
     ),
     "C05": dict(
         level="proof",
-        modules=["Exmex.Props.C05", "Exmex.Props.C09", "Exmex.Props.C02Deep", "Exmex.Props.C03"],
-        theorems=["Exmex.C05.partial_sound", "Exmex.C05.partial_norule", "Exmex.C05.Demo.demo", "Exmex.C09.partial_preserves", "Exmex.C09.partialIter_sound_single",
+        modules=["Exmex.Props.Reach", "Exmex.Props.C05", "Exmex.Props.C09", "Exmex.Props.C02Deep", "Exmex.Props.C03"],
+        theorems=["Exmex.Reach.reach_inv", "Exmex.C05.partial_sound", "Exmex.C05.partial_norule", "Exmex.C05.Demo.demo", "Exmex.C09.partial_preserves", "Exmex.C09.partialIter_sound_single",
                   "Exmex.C09.flat_partialIter_single_sound", "Exmex.C02.deep_compile_sound", "Exmex.C03.fromDeep_sound"],
         level_text=("kernel-checked (partial_sound): for every deep expression over + - * / ^ and the differentiable unary operators, every variable index and every "
                     "assignment, the expression returned by partial differentiation has the same variable list and evaluates to the derivative component of evaluating the "
@@ -275,8 +278,8 @@ PROPS = {
     ),
     "C09": dict(
         level="proof",
-        modules=["Exmex.Props.C09", "Exmex.Props.C05", "Exmex.Props.C02Deep", "Exmex.Props.C03"],
-        theorems=["Exmex.C09.partial_vars", "Exmex.C09.partial_preserves", "Exmex.C09.partialIter_index_error", "Exmex.C09.partialIter_ok_inrange",
+        modules=["Exmex.Props.Reach", "Exmex.Props.C09", "Exmex.Props.C05", "Exmex.Props.C02Deep", "Exmex.Props.C03"],
+        theorems=["Exmex.Reach.reach_inv", "Exmex.C09.partial_vars", "Exmex.C09.partial_preserves", "Exmex.C09.partialIter_index_error", "Exmex.C09.partialIter_ok_inrange",
                   "Exmex.C09.partialIter_nil", "Exmex.C09.partialIter_nil_sound", "Exmex.C09.partialIter_cons", "Exmex.C09.partialIter_replicate_succ",
                   "Exmex.C09.partialIter_sound_single", "Exmex.C09.partialIter_vars", "Exmex.C09.flat_partialIter_single_sound", "Exmex.C05.partial_sound"],
         level_text=("kernel-checked: partial_vars / partialIter_vars (a derivative lists exactly the variables of its antiderivative - purely structural, for any index "
@@ -368,10 +371,12 @@ PROPS = {
     ),
     "C07": dict(
         level="proof",
-        modules=["Exmex.Props.C07"],
+        modules=["Exmex.Props.C07", "Exmex.Props.C07Balance", "Exmex.Proofs.BalanceCex"],
         theorems=["Exmex.C07.flat_rejects_frontEnd", "Exmex.C07.deep_rejects_frontEnd", "Exmex.C07.blank_rejected",
                   "Exmex.C07.trailing_operator_rejected", "Exmex.C07.unbalanced_rejected", "Exmex.C07.adjacent_operands_rejected",
-                  "Exmex.C07.unknown_rejected", "Exmex.C07.flat_count", "Exmex.C07.lexLoop_balance"],
+                  "Exmex.C07.unknown_rejected", "Exmex.C07.flat_count", "Exmex.C07.lexLoop_balance",
+                  "Exmex.C07.unbalanced_text_rejected", "Exmex.C07.accepted_balanced", "Exmex.C07.dipped_iff",
+                  "Exmex.BalanceCex.repaired₁", "Exmex.BalanceCex.repaired₂", "Exmex.BalanceCex.nonempty_needed"],
         rule="well-formed renderings damaged at one point (delete/insert one parenthesis, append a binary operator, extra operand beside an operand, illegal character, blank text) x random tables; FlatEx::parse, parse_wo_compile, DeepEx::parse must all reject; non-trivial = damaged text of at least 3 characters; distinct by request hash",
         kinds=[dict(kind="damage", quick=30000, thorough=800000, corr=["r"], oracle_const=[("r", "eee")],
                     nontrivial=lambda req, A, B: len(req.split("\t")[3]) >= 6)],
@@ -379,7 +384,7 @@ PROPS = {
     "C08": dict(
         level="proof",
         modules=["Exmex.Props.C08"],
-        theorems=["Exmex.C08.call_tokens", "Exmex.C08.call_tokens_init", "Exmex.C08.lexStep_comma"],
+        theorems=["Exmex.C08.call_tokens", "Exmex.C08.call_tokens_dipped", "Exmex.C08.feed_comma_dipped", "Exmex.C08.call_tokens_init", "Exmex.C08.lexStep_comma"],
         rule="expressions in which 25-60% of the operand positions are calls op(a, b) (alphabetic and symbolic binary-only operators), rendered in call form, nested in first and second arguments, inside parentheses and under unary operators, depth up to 6; the implementation's token stream must equal the canonical tokens ((a) op (b)) and the value the documented one; non-trivial = at least one call and two operators; distinct by request hash",
         kinds=[dict(kind="flat", quick=20000, thorough=500000, args=["calls"],
                     corr=["toksimpl", "wo", "c", "vars"], oracle=[("toksimpl", "stoks"), ("wo_nf", "spec_nf"), ("c_nf", "spec_nf")],
